@@ -1069,6 +1069,32 @@ class Explorer:
             s = to_signed_ivs(av)
             if d.d.get("nsw"):
                 self._set_int(d.ops[0], inter(self.eval(d.ops[0], e), from_signed_ivs(w, [(a - c, b - c) for a, b in s])), e)
+        elif d.op in ("sdiv", "udiv") and d.ops[1][0] == "c" and d.ops[0][0] in ("i", "a"):
+            # x / c in [a, b]  (truncating division, c > 0)  =>  x in [a*c - (c-1 if a <= 0), b*c + (c-1 if b >= 0)]
+            w = av[1]
+            c = ir.cint_signed(d.ops[1]) if d.op == "sdiv" else d.ops[1][1]
+            if c > 0:
+                if d.op == "sdiv":
+                    s = to_signed_ivs(av)
+                    ivs = [(a * c - (c - 1 if a <= 0 else 0), b * c + (c - 1 if b >= 0 else 0)) for a, b in s]
+                    lo_, hi_ = -(1 << (w - 1)), (1 << (w - 1)) - 1
+                    nv = from_signed_ivs(w, [(max(a, lo_), min(b, hi_)) for a, b in ivs if max(a, lo_) <= min(b, hi_)])
+                else:
+                    nv = mk(w, [(a * c, min(b * c + c - 1, (1 << w) - 1)) for a, b in av[2] if a * c < (1 << w)])
+                cur = self.eval(d.ops[0], e)
+                self._set_int(d.ops[0], inter(cur, nv) if cur is not None and cur[0] == "int" else nv, e)
+        elif d.op == "add" and d.ops[1][0] == "c" and d.ops[0][0] in ("i", "a") and len(av[2]) <= 8:
+            # wrapping add (the range-check idiom  x + c <u k): the operand is the result shifted back modulo 2^w, exactly
+            w = av[1]
+            M = 1 << w
+            c = d.ops[1][1] % M
+            ivs = []
+            for a, b in av[2]:
+                a2, b2 = (a - c) % M, (b - c) % M
+                ivs += [(a2, b2)] if a2 <= b2 else [(a2, M - 1), (0, b2)]
+            cur = self.eval(d.ops[0], e)
+            nv = mk(w, ivs)
+            self._set_int(d.ops[0], inter(cur, nv) if cur is not None and cur[0] == "int" else nv, e)
 
     def _set_ptr(self, o, av, e):
         e[(o[0], o[1])] = av
